@@ -12,7 +12,7 @@ from sa.report import Ctx
 
 from .common import generic_sweeps
 
-from .cp_common import check_alldiff_coverage, check_cumulative_horizon, check_id_allocation, check_solve_is_read_only, default_raises, dispatcher_tags, flattener_tags, produced_tags, shape_dispatch_falls_through, structural_len_subjects
+from .cp_common import check_alldiff_coverage, check_constraint_table, check_small_semantics, check_cumulative_horizon, check_id_allocation, check_solve_is_read_only, default_raises, dispatcher_tags, flattener_tags, produced_tags, shape_dispatch_falls_through, structural_len_subjects
 
 EXPLANATION = (
     "Decides structural necessary conditions of 'no returned assignment breaks an added constraint / INFEASIBLE only "
@@ -24,7 +24,7 @@ EXPLANATION = (
     "a total decision of every constraint (explicit leaf certifier, or O2 and O3 hold for the propagator); (O5) values "
     "derived from `hints` reach domains/assumptions only if every INFEASIBLE publication is guarded by 'no hints in "
     "force' (hint-free retry); (O6) the two copies of the SAT-required tag set agree; (O7) domains are only ever "
-    "narrowed and decode reads each named variable's own literals. (O10) each boolean-id counter is written only by its initialisation and its allocator, auxiliary variables draw their literals from the encoder's allocator, and the encoder stores nothing in the model. (O11) cumulative emits its capacity clauses for every instant up to and including the latest possible start. (O12) nothing on the solve path writes a field of the model. NOT decided: semantic correctness of each "
+    "narrowed and decode reads each named variable's own literals. (O10) each boolean-id counter is written only by its initialisation and its allocator, auxiliary variables draw their literals from the encoder's allocator, and the encoder stores nothing in the model. (O11) cumulative emits its capacity clauses for every instant up to and including the latest possible start. (O12) nothing on the solve path writes a field of the model. (O13) producer/consumer agreement of constraint and expression tuples, position by position. (O14) the unit-sized propagators agree with their definition clause by clause. NOT decided: semantic correctness of each "
     "propagator/encoding, back-end agreement."
 )
 
@@ -129,6 +129,8 @@ def run(ctx: Ctx):
     check_id_allocation(ctx, "C05-O10")
     check_cumulative_horizon(ctx, "C05-O11")
     check_solve_is_read_only(ctx, "C05-O12")
+    check_constraint_table(ctx, "C05-O13")
+    check_small_semantics(ctx, "C05-O14", encoder=False, dfs=True)
     generic_sweeps(ctx, skip_stutter_modules=("solvor/sat.py",))
 
 
@@ -337,6 +339,31 @@ def _v_dfs_plan_cached_on_model(tree):
     M.replace_stmt(g, lambda s: s is first, lambda s: M.stmts("if getattr(self, '_dfs_plan', None) is None:\n    self._dfs_plan = list(self._constraints)") + [s])
 
 
+def _v_cumulative_args_swapped(tree):
+    g = M.find_func(tree, "Model.cumulative")
+    M.replace_expr(g, lambda e: isinstance(e, ast.Tuple) and M.src_has(e, "'cumulative'"), M.expr("('cumulative', tuple(starts), tuple(demands), tuple(durations), capacity)"))
+
+
+def _v_rsub_as_sub(tree):
+    g = M.find_func(tree, "IntVar.__rsub__")
+    M.replace_expr(g, lambda e: isinstance(e, ast.Tuple) and M.src_has(e, "'rsub'"), M.expr("('sub', self, other)"))
+
+
+def _v_dispatcher_drops_ne_var(tree):
+    g = M.find_func(tree, "SATEncoder._encode_constraint")
+    M.replace_expr(g, lambda e: isinstance(e, ast.Compare) and M.src_is(e, "kind == 'ne_var'"), M.expr("kind == 'ne_var_'"))
+
+
+def _v_ne_var_wrong_side(tree):
+    g = M.find_func(tree, "Model._propagate_constraint")
+    M.replace_expr(g, lambda e: M.src_is(e, "domains[var2.name].discard(val)"), M.expr("domains[var1.name].discard(val)"))
+
+
+def _v_alldiff_propagator_gutted(tree):
+    g = M.find_func(tree, "Model._propagate_all_different")
+    g.body = M.stmts("return True")
+
+
 def _t_reformat(tree):
     pass
 
@@ -374,6 +401,11 @@ VARIANTS = [
     M.Variant("cumulative scans start instants with an exclusive upper end (seeds C05-E / C06-F)", ENC, _v_cumulative_last_start_unchecked, "C05-O11"),
     M.Variant("twin: cumulative scans up to and including the latest start", ENC, _t_cumulative_start_instants, None),
     M.Variant("DFS constraint plan cached on the model, never invalidated by add() (seed C05-F)", CP, _v_dfs_plan_cached_on_model, "C05-O12"),
+    M.Variant("cumulative constructor stores demands and durations in swapped order", CP, _v_cumulative_args_swapped, "C05-O13"),
+    M.Variant("int - x builds a 'sub' tuple (read as x - int)", CP, _v_rsub_as_sub, "C05-O13"),
+    M.Variant("encoder dispatcher has no arm for ne_var", ENC, _v_dispatcher_drops_ne_var, "C05-O13"),
+    M.Variant("ne_var propagation discards from the assigned variable's own domain", CP, _v_ne_var_wrong_side, "C05-O14"),
+    M.Variant("DFS all_different propagator does nothing", CP, _v_alldiff_propagator_gutted, "C05-O14"),
     M.Variant("twin: reformat cp", CP, _t_reformat, None),
     M.Variant("twin: reformat encoder", ENC, _t_reformat, None),
     M.Variant("twin: rename free-variable list", CP, _t_rename, None),
